@@ -143,6 +143,10 @@ class SolveCheck:
         self.agree = 0; self.total = 0; self.dis = []
         self.nontrivial = set(); self.samples = []
 
+    def proofs(self, prop_file, pinned):
+        pr = check_proofs(prop_file, pinned)
+        proof_coverage(self.chk, pr, "make theories/Props/%s.vo && coqc theories/Props/%s.v (Print Assumptions scanned)" % (prop_file, prop_file))
+
     def build(self):
         for b, what in ((build_harness(), "harness"), (build_model(), "model driver")):
             if not b[0]:
@@ -197,6 +201,7 @@ RULE = ("seeded random table models (layered re-converging, negative costs, ties
 # ================================================================================ C01 / C02 / C09 / C10-solver / C11-solver
 def check_c01(tier, pid="C01"):
     sc = SolveCheck(pid, tier)
+    if pid == "C01": sc.proofs("C01", ["C01_seq_solver_correct_under_diagram_contracts"])
     if not sc.build(): return sc.chk.finish()
     n = {"C01": 60, "C02": 40, "C09": 60}.get(pid, 40) * (1 if tier == "quick" else 10)
     kind = "reconv" if pid == "C09" else "plain"
@@ -241,6 +246,20 @@ def check_c01(tier, pid="C01"):
                 if cache == "1" and by_cfg.get((flv, fr, w, dom, "0")) != v:
                     sc.chk.violation("property", "the caching solver returns %s, the non-caching solver %s (flavour %s fringe %s width %s dominance %s)"
                                      % (v, by_cfg.get((flv, fr, w, dom, "0")), flv, fr, w, dom), describe(I, "cache on vs off", str(by_cfg)))
+    extra = None
+    if pid == "C09":
+        # diagram-level stream with the threshold cache (and dominance store) shared across compilations, as the solvers do:
+        # thresholds, cache calls and pruning flags of every compilation must equal the model's
+        import check_mdd
+        st = check_mdd.Stream(sc.chk, tier, types=(2, 1), widths=(1, 2), ninst=(40 if tier == "quick" else 400), stores=True)
+        res = st.run()
+        ag, ds = check_mdd.correspondence(sc.chk, res, ["status", "cx", "cv", "x", "bv", "ev", "CS", "DOT", "LOG"])
+        ncu = sum(li.count("CU ") for _, rows in res for _, li, _, _ in rows)
+        npr = sum(li.count("lightgray") for _, rows in res for _, li, _, _ in rows)
+        extra = {"diagram_level_cache_stream": {"compilations": sum(len(r) for _, r in res), "agreements": ag, "disagreements": len(ds),
+                                                 "cache_updates_compared": ncu}}
+        for (I, meta, li, lm, case, why) in ds[:10]:
+            sc.dis.append((I, case, li[:1200], lm[:1200], "diagram-level " + str(why)))
     expl = {
         "C01": "Executable Coq model of SequentialSolver (Solver.v, on top of the diagram model) compared run by run with the code (is_exact, value, bounds; explored and "
                "poll counts when no tie occurred) and, independently, the implementation's value compared with exhaustive enumeration extracted from the Coq "
@@ -253,7 +272,7 @@ def check_c01(tier, pid="C01"):
     openo = {"C01": ["C01 for cache / dominance / pooled configurations (C09, C10, C15)", "diagram contracts K2-K4 (C06/C07/C08 semantic theorems)"],
              "C02": ["parallel part: covered by un-scheduled runs only"],
              "C09": ["C09_cache_preserves_optimum (search-level)", "per-compilation threshold soundness"]}[pid]
-    return sc.finish(RULE, expl, openo)
+    return sc.finish(RULE, expl, openo, extra)
 
 
 # ================================================================================ C05 / C19 (cutoff at every poll)
@@ -332,6 +351,7 @@ def check_cutoff(tier, pid):
 # ================================================================================ C14 (primal)
 def check_c14(tier):
     sc = SolveCheck("C14", tier)
+    sc.proofs("C14", ["C14_seq_solver_correct_with_primal", "C14_set_primal_replaces_only_when_strictly_greater"])
     if not sc.build(): return sc.chk.finish()
     n = 40 * (1 if tier == "quick" else 10)
     insts = gen_instances(sc.rng, n, "plain")
